@@ -8,6 +8,7 @@ use crate::fw::*;
 use crate::ser::{self, fb, fbs, Behaviour};
 use crate::zoo::{self, make_data};
 use linfa::traits::*;
+use linfa::dataset::AsSingleTargets;
 use linfa::{Dataset, DatasetBase};
 use ndarray::{Array1, Array2};
 use rand::SeedableRng;
@@ -244,6 +245,75 @@ fn extra_builders(tier: Tier) -> Vec<(String, DetBuilder)> {
             Ok(vec![("transform".into(), arr2(&t))])
         })));
     }
+    // ---- one-vs-all composition: the order of `one_vs_all()` pairs decides `MultiClassModel` ties
+    v.push(("one-vs-all-multiclass-saturated-members".into(), Box::new(|| {
+        // member models with saturated probabilities (exactly 1 near their class, exactly 0 far away):
+        // what Platt-scaled SVMs return on well separated classes (Pr is an f32)
+        struct Near { c: [f64; 2], r: f64 }
+        impl PredictInplace<Array2<f64>, Array1<linfa::dataset::Pr>> for Near {
+            fn predict_inplace(&self, x: &Array2<f64>, y: &mut Array1<linfa::dataset::Pr>) {
+                for (row, t) in x.rows().into_iter().zip(y.iter_mut()) {
+                    let d = ((row[0] - self.c[0]).powi(2) + (row[1] - self.c[1]).powi(2)).sqrt();
+                    *t = linfa::dataset::Pr::new(if d <= self.r { 1.0 } else { 0.0 });
+                }
+            }
+            fn default_target(&self, x: &Array2<f64>) -> Array1<linfa::dataset::Pr> {
+                Array1::from_elem(x.nrows(), linfa::dataset::Pr::new(0.0))
+            }
+        }
+        let centres = [[0.0, 0.0], [4.0, 0.0], [0.0, 4.0], [4.0, 4.0], [2.0, 7.0]];
+        let mut rows = vec![];
+        let mut y = vec![];
+        for (k, c) in centres.iter().enumerate() {
+            for j in 0..6 {
+                rows.push([c[0] + 0.1 * j as f64, c[1] - 0.1 * j as f64]);
+                y.push(100 + 7 * k);
+            }
+        }
+        let x = Array2::from_shape_fn((rows.len(), 2), |(i, j)| rows[i][j]);
+        let ds = Dataset::new(x, Array1::from(y));
+        let model: linfa::MultiClassModel<Array2<f64>, usize> = ds
+            .one_vs_all()
+            .map_err(es)?
+            .into_iter()
+            .map(|(l, view)| {
+                // "fit": the member's centre is the mean of its positive samples
+                let pos: Vec<usize> = view.targets().as_single_targets().iter().enumerate().filter(|(_, t)| **t).map(|(i, _)| i).collect();
+                let mut c = [0.0; 2];
+                for i in &pos {
+                    c[0] += view.records()[(*i, 0)] / pos.len() as f64;
+                    c[1] += view.records()[(*i, 1)] / pos.len() as f64;
+                }
+                (l, Near { c, r: 2.5 })
+            })
+            .collect();
+        // queries: inside one class, between two / four classes (tied at 1), far from all (tied at 0)
+        let q = ndarray::array![[0.1, 0.1], [2.0, 0.0], [2.0, 2.0], [50.0, 50.0], [0.0, 2.0], [3.0, 5.5], [-40.0, 3.0]];
+        let p: Array1<usize> = model.predict(&q);
+        Ok(vec![("predict".into(), format!("{:?}", p.to_vec()))])
+    })));
+    v.push(("one-vs-all-svm-platt".into(), Box::new(|| {
+        // the documented multi-class recipe: one Platt-scaled SVM per label, merged by MultiClassModel
+        let mut rows = vec![];
+        let mut y = vec![];
+        for (k, c) in [[0.0, 0.0], [30.0, 0.0], [0.0, 30.0], [30.0, 30.0]].iter().enumerate() {
+            for j in 0..8 {
+                rows.push([c[0] + 0.3 * (j % 3) as f64, c[1] + 0.3 * (j / 3) as f64]);
+                y.push(3 * k + 1);
+            }
+        }
+        let x = Array2::from_shape_fn((rows.len(), 2), |(i, j)| rows[i][j]);
+        let ds = Dataset::new(x, Array1::from(y));
+        let mut members = vec![];
+        for (l, view) in ds.one_vs_all().map_err(es)? {
+            let m = linfa_svm::Svm::<f64, linfa::dataset::Pr>::params().linear_kernel().pos_neg_weights(1e3, 1e3).fit(&view).map_err(es)?;
+            members.push((l, m));
+        }
+        let model: linfa::MultiClassModel<Array2<f64>, usize> = members.into_iter().collect();
+        let q = ndarray::array![[0.2, 0.2], [30.0, 0.3], [15.0, 15.0], [15.0, 0.0], [300.0, 300.0], [-300.0, -300.0], [0.0, 15.0], [29.0, 31.0]];
+        let p: Array1<usize> = model.predict(&q);
+        Ok(vec![("predict".into(), format!("{:?}", p.to_vec()))])
+    })));
     v.push(("ftrl-default-seed".into(), Box::new(|| {
         let d = make_data(17, 200, 4, false);
         let ds = Dataset::new(d.x.clone(), d.ybin.clone());
